@@ -10,9 +10,16 @@ for name in sorted(os.listdir(os.path.join(V, "seeded"))):
     agent = json.load(open(os.path.join(d, "meta.agent.json")))
     # demonstration on the clean tree and on the patched tree is part of mutcheck's worktree run
     t = time.time()
+    demo = os.path.join(d, "demo.sh") if os.path.exists(os.path.join(d, "demo.sh")) else os.path.join(d, "demo.py")
+    if demo.endswith(".sh"):
+        dc = subprocess.run(["bash", demo, "/repo"], cwd=d, capture_output=True, text=True, timeout=900)
+    else:
+        dc = subprocess.run(["/venv/bin/python", demo, "/repo"], cwd="/repo", capture_output=True, text=True,
+                            timeout=900, env=dict(os.environ, PYTHONPATH="/repo"))
     p = subprocess.run([os.path.join(V, "tools", "mutcheck.sh"), os.path.join(d, "patch.diff"), prop],
-                       capture_output=True, text=True)
+                       capture_output=True, text=True, env=dict(os.environ, MUT_DEMO=demo))
     out = p.stdout
+    dp = re.search(r"DEMO-PATCHED exit=(\d+)", out)
     sigs = sorted(set(re.findall(r"^  sig=(\S+)", out, re.M)))
     meta = {
         "property": prop,
@@ -23,7 +30,8 @@ for name in sorted(os.listdir(os.path.join(V, "seeded"))):
         "written_by": "independent sub-agent given only the property text and its own worktree",
         "confirmed": {
             "pinned_suite_with_patch": (re.search(r"(\d+ passed[^\n]*)", out) or [None, None])[1],
-            "demo": "exit 0 on the unpatched tree, exit 1 with the patch (run by hand before keeping the change)",
+            "demo_exit_on_unpatched_repo": dc.returncode,
+            "demo_exit_on_patched_worktree": int(dp.group(1)) if dp else None,
         },
         "what_i_ran": "tools/mutcheck.sh seeded/%s/patch.diff %s  (scratch worktree of /repo + patch, pinned suite, "
                       "then ./vcheck %s --tier quick with SHROUD_REPO=<worktree>)" % (name, prop, prop),
@@ -33,4 +41,5 @@ for name in sorted(os.listdir(os.path.join(V, "seeded"))):
         "wall_s": round(time.time() - t, 1),
     }
     json.dump(meta, open(os.path.join(d, "meta.json"), "w"), indent=1)
-    print(name, "caught" if p.returncode == 0 else "MISSED", sigs[:2])
+    print(name, "caught" if p.returncode == 0 else "MISSED", "demo clean/patched = %s/%s" % (
+        dc.returncode, dp.group(1) if dp else "?"), sigs[:2], flush=True)
